@@ -116,7 +116,7 @@ def iteration_view(it):
         return 'concrete', list(it.keys())
     if isinstance(it, (list, tuple, set, frozenset, bytes, bytearray, str, range)):
         return 'concrete', list(it)
-    if V.is_symbolic(it):
+    if V.is_symbolic(it) or type(it).__module__.startswith('pyvc'):
         raise E.Unsupported('iteration over %s' % type(it).__name__)
     try:
         return 'concrete', list(it)
@@ -339,6 +339,19 @@ def comprehension(frame, e, kind):
     # flag-set rule: {f(x) for x in EnumClass if c(x)} with symbolic c
     if kind == 'set' and isinstance(it, type) and issubclass(it, enum.Enum) and g.ifs:
         return comp_flagset(frame, e, g, it)
+    # sub-set rule: [x for x in flags if c(x)] keeps the members of a symbolic flag set for which c holds (the result is
+    # used as an unordered collection: anything order dependent on it is reported as unsupported by SFlags itself)
+    if kind in ('list', 'set') and isinstance(it, SFlags) and g.ifs and isinstance(e.elt, ast.Name) \
+            and isinstance(g.target, ast.Name) and e.elt.id == g.target.id:
+        P = E.cur()
+        sub = F.Frame(frame.fn, dict(frame.env), frame.node, parent=frame.parent)
+        bits = {}
+        for m, present in it.bits.items():
+            sub.assign(g.target, m)
+            with P.scope():
+                cond = z3.And(*[to_bool_expr(sub.ev(c)) for c in g.ifs])
+            bits[m] = V.simp(z3.And(present, cond))
+        return SFlags(it.cls, bits)
     view = iteration_view(it)
     if view[0] == 'concrete':
         return comp_unroll_items(frame, e, g, view[1], kind)
